@@ -4,6 +4,7 @@ import (
 	"bytes"
 	"fmt"
 	"strings"
+	"time"
 )
 
 // Correspondence of the extracted Coq writer model (coq/WModel, function wrun) with the
@@ -60,6 +61,18 @@ func minInt(a, b int) int {
 }
 
 var modelTier = "quick"
+var harnessStart = time.Now()
+
+// The model comparisons are the expensive part of a run (the extracted models work on lists).
+// Each harness process stops starting new ones once its time budget for them is used up, so that a
+// check always finishes well inside its time limit; what was skipped is counted in the evidence.
+func modelTimeLeft() bool {
+	limit := 100 * time.Second
+	if modelTier == "thorough" {
+		limit = 1500 * time.Second
+	}
+	return time.Since(harnessStart) < limit
+}
 
 type ModelWObs struct {
 	EventsOK bool // event_ok_b holds for every block of the ghost trace (premise of the codec theorems)
@@ -166,15 +179,23 @@ func compareModel(rep *Report, pool *DriverPool, c interface{}, s Setting, datas
 	if pool == nil || !modelApplies(s) || obs.Panic != "" || obs.Ctor != "" {
 		return
 	}
+	if !modelTimeLeft() {
+		rep.Count("model:skipped-time-budget")
+		return
+	}
 	budget := 70000
 	if modelTier == "thorough" {
-		budget = 300000
+		budget = 150000
 	}
 	total := 0
 	for i, op := range ops {
 		if op.K == "w" {
 			total += opLen(datas, ops, i)
 		}
+	}
+	if modelTier == "thorough" && total > 20000 && (total%3 != 0) {
+		rep.Count("model:skipped-sampled-out")
+		return
 	}
 	modelSeq := uint64(total)*1315423911 + uint64(len(ops))*2654435761 + uint64(failAt)*97
 	if modelTier != "thorough" && (rep.Prop == "C16" || rep.Prop == "C14") && total > 40000 {
@@ -287,12 +308,20 @@ func compareOracle(rep *Report, pool *DriverPool, c interface{}, s Setting, data
 			total += opLen(datas, ops, i)
 		}
 	}
+	if !modelTimeLeft() {
+		rep.Count("oracle:skipped-time-budget")
+		return
+	}
 	budget := 70000
 	if modelTier == "thorough" {
-		budget = 300000
+		budget = 150000
 	}
 	if !modelAffordable(datas, ops, budget) {
 		rep.Count("oracle:skipped-too-large")
+		return
+	}
+	if modelTier == "thorough" && total > 20000 && total%3 != 0 {
+		rep.Count("oracle:skipped-sampled-out")
 		return
 	}
 	if modelTier != "thorough" && (rep.Prop == "C16" || rep.Prop == "C14") && total > 40000 {
